@@ -34,6 +34,38 @@ Theorem C15_volcano_eq_upstream_amounts : forall tracked plsup ippvs plr ippl dr
 Proof. exact volcano_eq_upstream_amounts. Qed.
 Print Assumptions C15_volcano_eq_upstream_amounts.
 
+(* WHAT IS RESERVED: TaskInfo.Resreq (charged to the node ledger by
+   NodeInfo.AddTask) and TaskInfo.InitResreq (what predicates compare with the
+   idle amount) are both upstream's effective request + pods, and BestEffort is
+   "that vector is empty" — for every pod and EVERY lifecycle position m of the
+   pod (phase "", Pending, Running, Succeeded, Failed, Unknown; with or without
+   spec.nodeName; with or without a deletion timestamp). *)
+Theorem C15_task_reservation_eq_upstream : forall tracked plsup ippvs plr ippl dra m p,
+  pod_ok tracked plsup p ->
+  let up1 := add_scalar (new_resource tracked (k8s_pod_requests plsup (opts_of ippvs plr ippl dra) p)) pods_name 1 in
+  task_resreq tracked plsup ippvs plr ippl dra m p = up1 /\
+  task_init_resreq tracked plsup ippvs plr ippl dra m p = up1 /\
+  task_best_effort tracked plsup ippvs plr ippl dra m p = is_empty 1 up1.
+Proof. exact task_reservation_eq_upstream. Qed.
+Print Assumptions C15_task_reservation_eq_upstream.
+
+Theorem C15_law_reservation_is_the_relation : forall up vc rq irq be,
+  law_task_reservation up vc rq irq be = true <->
+  vc = add_scalar up pods_name 1 /\ rq = add_scalar up pods_name 1 /\ irq = add_scalar up pods_name 1 /\
+  be = is_empty 1 (add_scalar up pods_name 1).
+Proof. exact law_task_reservation_spec. Qed.
+Print Assumptions C15_law_reservation_is_the_relation.
+
+Theorem C15_law_reservation_accepts_models : forall tracked plsup ippvs plr ippl dra m p,
+  pod_ok tracked plsup p ->
+  law_task_reservation (new_resource tracked (k8s_pod_requests plsup (opts_of ippvs plr ippl dra) p))
+    (vc_pod_request tracked plsup ippvs plr ippl dra p)
+    (task_resreq tracked plsup ippvs plr ippl dra m p)
+    (task_init_resreq tracked plsup ippvs plr ippl dra m p)
+    (task_best_effort tracked plsup ippvs plr ippl dra m p) = true.
+Proof. exact law_reservation_accepts_models. Qed.
+Print Assumptions C15_law_reservation_accepts_models.
+
 (* consequently a node fits under volcano's count iff it fits under upstream's *)
 Theorem C15_fits_iff : forall tracked plsup ippvs plr ippl dra p,
   pod_ok tracked plsup p ->
